@@ -28,7 +28,7 @@ type CaseOpts struct {
 	DB         string
 	Coll       string
 	NoNsStages bool
-	Cmd        *Node // if set, used as the command document instead of a generated one
+	Cmd        *Node  // if set, used as the command document instead of a generated one
 	Msg        string // if set, the line's msg (an OTHER-component line with another msg is outside the line gate)
 }
 
@@ -111,6 +111,9 @@ func (g *Gen) Command(verb, db, coll string) *Node {
 				u.Set("u", g.Doc("update-replacement", 1))
 			case 3:
 				u.Set("u", g.UpdatePipeline(d))
+				if g.chance(0.5) {
+					u.Set("c", g.Doc("update-constants", 1))
+				}
 			}
 			u.Set("multi", FreeB(g.chance(0.5)))
 			u.Set("upsert", FreeB(false))
